@@ -1,5 +1,5 @@
 """C05 — formatter contract (structural clauses; the round trip parse(format(x)) == x is not decided)."""
-from ..rules import text, data, fields, eqord, parser, features, vis, summary, beliefs
+from ..rules import text, data, fields, eqord, parser, features, vis, summary, beliefs, normal
 
 EXPL = ("Decides: store_into_bytes refuses exactly when buffer.len() < len_in_str() and no store to the buffer lies on that path; it "
         "returns Ok(len_in_str()); to_string allocates exactly len_in_str() bytes and fills them with that one formatter, Display "
@@ -46,6 +46,7 @@ def run(ctx):
         ctx.guard("C05", "sym", lambda: eqord.len_index_symmetry(ctx, prog, scope=r"(store_into_bytes|insert_block_hash_into_bytes|len_in_str|::to_string|core::fmt::Display)", floor=2))
         ctx.guard("C05", "const values", lambda: data.const_census(ctx, prog, data.CONST_SCOPES["C05"], floor=1))
         ctx.guard("C05", "parser-init", lambda: parser.initial_values(ctx, prog))
+        ctx.guard("C05", "run-counters", lambda: normal.run_counters(ctx, prog, ("parser",)))
         ctx.guard("C05", "summaries", lambda: summary.check(ctx, prog, '::to_string|alloc::string::String>::from|::len_in_str|core::fmt::Display', floor=1))
         ctx.guard("C05", "generic consts", lambda: summary.check_consts(ctx, prog, floor=13))
         ctx.guard("C05", "path summaries", lambda: summary.check_paths(ctx, prog, '::to_string|alloc::string::String>::from|::len_in_str|core::fmt::Display', floor=0))
